@@ -61,6 +61,42 @@ def const_key(c):
     return ("disp", c.get("disp", c.get("ty")))
 
 
+def promoted_summary(body, idx):
+    """what a promoted constant of `body` evaluates to, as a key: ('variant', adt, name) | ('int', n) | ('str', s) | None"""
+    proms = body.d.get("promoted") or []
+    if idx >= len(proms):
+        return None
+    pb = proms[idx]
+    defs = {}
+    for blk in pb["blocks"]:
+        for st in blk["stmts"]:
+            if st["k"] == "assign" and not st["lhs"].get("p"):
+                defs[st["lhs"]["l"]] = st["rv"]
+    l = 0
+    for _ in range(6):
+        rv = defs.get(l)
+        if rv is None:
+            return None
+        if rv["k"] == "ref":
+            if rv["place"].get("p"):
+                return None
+            l = rv["place"]["l"]
+            continue
+        if rv["k"] == "use":
+            c = op_const(rv["op"])
+            if c is not None:
+                return const_key(c)
+            ll = op_local(rv["op"])
+            if ll is None:
+                return None
+            l = ll
+            continue
+        if rv["k"] == "agg" and rv.get("agg") == "adt":
+            return ("variant", rv.get("adt"), rv.get("variant"))
+        return None
+    return None
+
+
 class Prov:
     """Backward provenance for one body. Origins are tuples:
        ('arg', local, fields) | ('const', key) | ('call', bb) | ('agg', name) | ('op', opname) | ('undef', local) | ('unknown', what)"""
@@ -80,6 +116,10 @@ class Prov:
     def operand(self, op, rest=(), _seen=None):
         c = op_const(op)
         if c is not None:
+            if "promoted" in c:
+                ps = promoted_summary(self.b, c["promoted"])
+                if ps is not None:
+                    return {("const", ps)}
             return {("const", const_key(c))}
         p = op_place(op)
         if p is None:
